@@ -22,7 +22,7 @@ EXPLANATION = (
 ASSUMPTIONS = ["std::atomic<thread_state>::compare_exchange_strong is atomic", "work_items_/new_tasks_/terminated_items_ deliver each pushed element to one pop (C17)",
                "on_start_thread runs on the owning worker before the pool's start-up barrier releases any work (reserve() calls exempt from R6)"]
 THOROUGH_CONFIGS = [["-UNDEBUG", "-DPIKA_DEBUG"], ["-DPIKA_HAVE_THREAD_QUEUE_WAITTIME"]]
-FLOORS = {"C01.R1": 8, "C01.R2": 6, "C01.R3": 8, "C01.R4": 24, "C01.R5": 12, "C01.R6": 10, "C01.R7": 9, "C01.R8": 2, "C01.R9": 1, "C01.R10": 6, "C01.R11": 4, "C01.R12": 20, "C01.R13": 4, "C01.R14": 3, "C01.R15": 5, "C01.R16": 6, "C01.R17": 3, "C01.R18": 2}
+FLOORS = {"C01.R1": 8, "C01.R2": 6, "C01.R3": 8, "C01.R4": 24, "C01.R5": 12, "C01.R6": 10, "C01.R7": 9, "C01.R8": 2, "C01.R9": 1, "C01.R10": 6, "C01.R11": 4, "C01.R12": 20, "C01.R13": 4, "C01.R14": 3, "C01.R15": 5, "C01.R16": 6, "C01.R17": 3, "C01.R18": 2, "C01.R19": 1}
 
 TSS = "pika::threads::detail::thread_schedule_state"
 TD = "pika::threads::detail::thread_data"
@@ -54,6 +54,11 @@ def run(rep, tier):
              "pops again or the function returns: on the edge where new_task_items_.pop(..) succeeded an obligation starts that only create_thread_object followed by "
              "schedule_thread / schedule_work ends. A description popped and then dropped (batch budget tested after the pop) is a task whose body is never entered while "
              "the counters still count it - pika::wait() hangs")
+    rep.rule("C01.R19", "K6 (who may touch the owner's recycle lists; shared-priority scheduler): queue_holder_thread keeps its recycled thread objects in plain, unsynchronised "
+             "lists (thread_heap_*) that only the owning worker touches - create_thread_object pops from them without a lock. destroy_thread can be called by another "
+             "worker (a stolen task ends there: xthread == true); it may push the terminated thread onto the concurrent terminated_items_ queue, but it runs "
+             "cleanup_terminated - which moves objects onto the owner's lists - only on the path where the caller is the owner (the cross-thread flag is false). Otherwise "
+             "one thread object is handed to two tasks: a body is never entered, or entered on a stack another task is using")
     rep.rule("C01.R8", "K2: map insert before schedule (run_now); ++thread_map_count_ -> --new_tasks_count_ -> schedule_thread in add_new")
     rep.rule("C01.R9", "K4: a recycled thread object is rebound before use")
 
@@ -782,6 +787,28 @@ def run(rep, tier):
                     "still count it (pika::wait() hangs)" % (cls18, probs[0][1] if probs else "the end of the loop body without create_thread_object"))
         else:
             rep.ok("C01.R18", fn, "%s::add_new: every popped description is created and queued before the next pop / the return" % cls18)
+
+    # ---- R19: only the owner recycles into its own lists
+    QD = facts(rep, lib("thread_pools", "src/scheduled_thread_pool.cpp"), [r"^pika::threads::detail::queue_holder_thread::destroy_thread$"])
+    qd = [f for f in QD.fns if f.parent == -1 and not f.pattern and f.qname.endswith("queue_holder_thread::destroy_thread")]
+    if not qd:
+        raise AnalysisBroken("queue_holder_thread::destroy_thread not instantiated")
+    for fn in qd[:1]:
+        flag = [p_["name"] for p_ in fn.params if (p_.get("type") or "").strip() == "bool"]
+        if not flag:
+            raise AnalysisBroken("queue_holder_thread::destroy_thread: the cross-thread flag parameter was not found")
+        ff19 = FactFlow(fn, eh=False)
+        cl = [(b, i, e) for b, i, e in fn.all_events() if e.get("k") == "call" and callee_short(e) in ("cleanup_terminated", "recycle_thread")]
+        if not cl:
+            rep.ok("C01.R19", fn, "destroy_thread does not recycle into the owner's lists at all")
+        for b, i, e in cl:
+            fb = ff19.before.get((b, i)) or frozenset()
+            if (flag[0], False) in fb:
+                rep.ok("C01.R19", fn, "%s is reached only with %s == false (the caller owns the lists)" % (callee_short(e), flag[0]))
+            else:
+                rep.bad("C01.R19", fn, loc_of(e), "foreign-worker-recycles", "queue_holder_thread::destroy_thread reaches %s on a path where '%s' is not known to be false: a worker that "
+                        "does not own this holder (it finished a stolen task) moves recycled thread objects onto the owner's unsynchronised thread_heap_ lists while the owner pops from "
+                        "them in create_thread_object - one thread object can be handed to two tasks" % (callee_short(e), flag[0]))
 
     # ---- R14: staged tasks are converted even at the thread-object cap
     rep.rule("C01.R14", "K7 (evaluated): thread_queue::add_new_always converts staged tasks (reaches add_new) whenever the thread map has room, and also "
